@@ -183,17 +183,6 @@ def methodStructOk (m : MethodSpec) : Bool :=
   m.params.all (fun p => distinct ((fieldsOf p).map (·.name)) && (fieldsOf p).all (fun f => !(fieldKey f).isEmpty)) &&
   !(m.verb.hasBody && m.params.any isQualOther)
 
-def hasCtx (m : MethodSpec) : Bool := m.params.any isCtxParam
-
-/-- F_mixedCtx (Q1): some methods take a context and some do not — inside the quantifier
-    ("methods with and without context"), the generator fails with "format source" -/
-def F_mixedCtx (i : IfaceSpec) : Bool := i.methods.any hasCtx && i.methods.any (fun m => !hasCtx m)
-
-/-- F_bodyNoStruct (Q2): a POST/PUT/PATCH method without a struct parameter — inside the quantifier
-    (five verbs × scalar parameters); `json.Marshal()` does not compile -/
-def F_bodyNoStruct (i : IfaceSpec) : Bool :=
-  i.methods.any (fun m => m.verb.hasBody && !m.params.any isStructParam)
-
 /-- F_ptrDict (Q5): a `*map[…]…` parameter on GET/DELETE — inside the quantifier (pointer × map; the
     repo's own fixture has one); the generated `range` does not compile -/
 def F_ptrDict (i : IfaceSpec) : Bool :=
@@ -236,8 +225,6 @@ def structOk (i : IfaceSpec) : Bool :=
 
 def region (i : IfaceSpec) (calls : List Call) : String :=
   if !structOk i then "Out"
-  else if F_mixedCtx i then "F_mixedCtx"
-  else if F_bodyNoStruct i then "F_bodyNoStruct"
   else if F_ptrDict i then "F_ptrDict"
   else if F_twoDicts i then "F_twoDicts"
   else if F_qualScalar i then "F_qualScalar"
